@@ -46,7 +46,7 @@ def describe(tier):
             "traces = executions whose implementation tree was compared with the model tree. Non-trivial = a configuration in "
             "which at least one context was opened AND at least one hit was dropped or decoded (the engine had to do more than "
             "append). 'ties' blocks enumerate only lists already in engine sort order plus all relative orders of equal spans. "
-            "every configuration of <= 2 hits is also run through the second public entry point scan_node(Node('', T)) (zero root span). 'streams' = the hit streams the shipped decoders produce on every input of the scan-level token families "
+            "every configuration of <= 2 hits is also run through the second public entry point scan_node(Node('', T)) (zero root span). every configuration of <= 2 hits (N=4) is executed again in child interpreters started with -O and -OO. 'streams' = the hit streams the shipped decoders produce on every input of the scan-level token families "
             "(mdmc/families.py), replayed through the same reference machine."
         ),
         "bounds": {k: v for k, v in b.items()},
@@ -61,7 +61,7 @@ def describe(tier):
 
 def plan(tier, seed):
     b = BOUNDS[tier]
-    units = [("special", "empty-registry"), ("special", "no-hits")]
+    units = [("special", "empty-registry"), ("special", "no-hits"), ("optimize", "-O"), ("optimize", "-OO")]
     for blk_kind in ("full", "ties"):
         for bi, blk in enumerate(b[blk_kind]):
             for ci in range(len(hitx.candidates(blk["N"], blk.get("kinds", hitx.KINDS)))):
@@ -168,8 +168,61 @@ def run_config(rec, T, hits, depth, mode, grouped):
     return None
 
 
+OPT_CHILD = r"""
+import sys, hashlib
+sys.path.insert(0, sys.argv[1]); sys.path.insert(1, sys.argv[2])
+from mdmc.engines import hitx
+from mdmc import trees
+T = hitx.text(4)
+cands = hitx.candidates(4)
+out = []
+for first in cands:
+    for hits in hitx.configs_from(first, 4, 2):
+        for depth in (1, 2):
+            for mode in ("r0", "rp"):
+                r = hitx.execute(T, hits, depth, mode, False)
+                out.append(hashlib.sha1(repr(trees.tup(r.impl)).encode()).hexdigest()[:12])
+print(" ".join(out))
+"""
+
+
+def run_optimize(rec, flag):
+    """Every configuration of <= 2 hits (N=4, depths 1-2, modes r0/rp) in a child interpreter started with -O / -OO: same trees as here."""
+    import hashlib
+    import subprocess
+    import sys
+
+    r = subprocess.run([sys.executable, flag, "-c", OPT_CHILD, core.REPO_SRC, core.VERIF], capture_output=True, text=True, timeout=600)
+    w0 = {"engine": "optimize", "flag": flag}
+    if r.returncode != 0:
+        rec.violation("C06.total", f"child-failed|{flag}", w0, f"python {flag} child failed: {core.short(r.stderr, 300)}", 1)
+        return
+    got = r.stdout.split()
+    T = hitx.text(4)
+    i = 0
+    for first in hitx.candidates(4):
+        for hits in hitx.configs_from(first, 4, 2):
+            for depth in (1, 2):
+                for mode in ("r0", "rp"):
+                    rec.count("evaluations")
+                    rec.count("traces")
+                    run = hitx.execute(T, hits, depth, mode, False)
+                    mt = run.model.tup()
+                    rec.count("transitions", run.trace.transitions)
+                    if i >= len(got) or got[i] != hashlib.sha1(repr(mt).encode()).hexdigest()[:12]:
+                        rec.violation("C06.tree-equals-model", f"differs-under-{flag}", {"engine": "optimize", "flag": flag, "T": T, "hits": [list(h) for h in hits], "depth": depth, "mode": mode},
+                                      f"in an interpreter started with {flag} the engine's tree for this configuration is not the model's ({core.short(mt, 160)})", len(hits) * 100 + depth)
+                    i += 1
+    rec.mark("states", ("optimize", flag))
+    rec.mark("nontrivial", ("optimize", flag))
+    rec.sample({"engine": "optimize", "flag": flag, "configurations": i})
+
+
 def run_unit(unit, rec):
     kind = unit[0]
+    if kind == "optimize":
+        run_optimize(rec, unit[1])
+        return
     if kind == "special":
         special(unit[1], rec)
     elif kind in ("full", "ties"):
@@ -262,5 +315,7 @@ def replay(w, rec):
         run_config(rec, w["T"], tuple(tuple(h) for h in w["hits"]), w["depth"], w["mode"], w["grouped"])
     elif eng == "empty-registry":
         special("empty-registry", rec)
+    elif eng == "optimize":
+        run_optimize(rec, w["flag"])
     elif eng == "stream":
         streams.replay(w, rec, stream_monitor)
